@@ -12,6 +12,11 @@
 //!                                                           judge history / get_at against the scenario's oracle
 //! options: --levels N --block B --cache BYTES --snappy --nobloom --memtable BYTES --vlog-file BYTES
 //!          --jobs N --walks N --seed S --only index|lsm
+//!          --program "<tombstones 0|1>;<lo-hi|none>;<limit|none>;<lohex:hihex>;<step>,.."  directed cursor probe, printed,
+//!          not judged (steps: seek_first seek_last next prev k1..k3 hex:<key>); see spec/history/mk_scenario.py
+//!
+//! A panic of the engine inside a scenario is caught and reported as a violation (`panic`), an error returned by any
+//! step as `engine_error`; crash images are opened in a child process by the check (hang / abort = violation).
 //!
 //! Scenario: {"ops":[{"op","k","kind","ts"}...], "cfg":{"retention":R,"ooo":bool},
 //!            "expect":{"now":n,"visible":n,"latest":{k:KeyExp},"reader":{"open":b,"snap":h,"keys":{k:KeyExp}}}}
@@ -774,8 +779,20 @@ fn observe(t: &Transaction, view: &View, backend: &str, who: &str, cfg: &Cfg, rn
 						}
 						_ => "",
 					};
-					let turn = prog.len() >= 2 && prev_back != back_now;
-					let mode = if turn { "reversal/turn" } else { "reversal" };
+					// a direction change at this step or at an earlier one of this walk (a mispositioned cursor may only
+					// show later); a seek counts as a forward move, seek_last as a backward one
+					let dirs: Vec<bool> = prog.iter().map(|p| p == "prev" || p == "seek_last").collect();
+					let turned = dirs.windows(2).any(|w| w[0] != w[1]);
+					let mode = if turned { "reversal/turn" } else { "reversal" };
+					// the same entry once more without any direction change: it is listed twice
+					if !turned && kind == "cursor_position_wrong" {
+						if let (Some(g), Some(p)) = (&got, prev_pos) {
+							if view.keys[can[p].kidx].bytes == g.key && can[p].seq == g.seq {
+								kind = "version_listed_twice";
+								key = Some(&view.keys[can[p].kidx]);
+							}
+						}
+					}
 					j.vc(kind, cause, mode, &lo, &hi, Some(&o), key,
 						json!({"program":prog,"got":got.as_ref().map(obs_json),"want":want.map(|w| json!({"key":view.keys[w.kidx].name,"seq":w.seq}))}));
 					break;
